@@ -108,6 +108,8 @@ def report(pid, tier, seed, t0, res):
     res['failures'] = fails
     for lem, err in fails[:nsearch]:
         cx, errs = (None, [])
+        if any(core_match(k, {'meta': lem.meta, 'theorem': lem.name}) for k in known):      # a listed finding: no search, it is reported as KNOWN-FINDING
+            viol.append(({'kind': 'unproved', 'theorem': lem.name, 'statement': lem.statement()[:2000], 'meta': lem.meta, 'coq_error': err[-600:]}, False)); continue
         try: cx, errs = lem.search(idx, seed) if hasattr(lem, 'search') else (None, ['no search for implication-shaped / IEEE-enumeration statements']) if (getattr(lem, 'raw_stmt', False) or getattr(lem, 'mode', None) == 'ieee') else search_counterexample(idx, lem, seed)
         except Exception as e: errs = ['search failed: %r' % e]
         obj = {'kind': 'counterexample' if cx else 'unproved', 'theorem': lem.name, 'statement': lem.statement()[:2000], 'meta': lem.meta, 'coq_error': err[-600:], 'how_found': 'lemma failed; both sides evaluated with the IEEE/Z instance under vm_compute on %s candidate inputs' % ('600'), 'search_errors': errs[:2]}
@@ -137,11 +139,14 @@ def report(pid, tier, seed, t0, res):
             for k in lost[:10]:
                 viol.append(({'kind': 'unproved', 'theorem': 'coverage of %s' % k, 'function': k, 'how_found': 'the function is in the recorded coverage baseline of this property but is no longer covered (renamed, removed, or no longer translatable)'}, False))
             res.setdefault('notes', {})['lost_coverage'] = lost[:50]
-    nviol = 0
+    nviol = 0; nknown = 0
     for k in known:
         print('KNOWN-FINDING: property=%s %s' % (pid, k.get('what', '')))
     for obj, found in viol:
-        if any(core_match(k, obj) for k in known): continue
+        if any(core_match(k, obj) for k in known):
+            # a statement refuted by a listed finding is not an obligation of this run (it is reported above, with its witness)
+            if obj.get('kind') == 'unproved' and obj.get('theorem', '').split('_')[0] not in ('coverage',): nknown += 1
+            continue
         p = core.write_replay(pid, obj); nviol += 1
         print('VIOLATION property=%s replay=%s%s' % (pid, p, '' if found or obj.get('kind') == 'correspondence' and obj.get('input_words') else ' no-failing-input-found'))
     try: res.setdefault('assumptions', {}).update(core.lib_assumptions(pid))
@@ -154,13 +159,14 @@ def report(pid, tier, seed, t0, res):
     for h in hits[:5]:
         p = core.write_replay(pid, {'kind': 'unproved', 'theorem': h, 'how_found': 'forbidden construct in the development'}); nviol += 1
         print('VIOLATION property=%s replay=%s no-failing-input-found' % (pid, p))
-    cov = {'obligations': res['obligations'], 'discharged': res['discharged'], 'checker_cmd': 'coqc (Coq 8.16.1) on the regenerated model and lemma files; ./check %s %s' % (pid, tier),
+    res.setdefault('notes', {})['statements_refuted_by_known_findings'] = nknown
+    cov = {'obligations': res['obligations'] - nknown, 'discharged': res['discharged'], 'checker_cmd': 'coqc (Coq 8.16.1) on the regenerated model and lemma files; ./check %s %s' % (pid, tier),
            'trusted_base': res.get('trusted_base', []) + ['axioms reported by Print Assumptions in this run: ' + (', '.join(sorted(seen)) if seen else 'none (closed under the global context)')],
            'evaluations': cstats.get('calls', 0), 'distinct_nontrivial': cstats.get('distinct_inputs', 0), 'rule': res.get('rule', ''), 'samples': res.get('samples', []) + cstats.get('samples', []),
            'correspondence': {k: v for k, v in cstats.items() if k != 'samples'}, 'translator': res.get('translator', {}), 'notes': res.get('notes', {})}
     cov.update(res.get('coverage_extra', {}))
     core.write_evidence(pid, tier, seed, cov, res.get('assumptions_text', []), time.time() - t0, nviol)
-    log('%s %s: %d/%d obligations, %d correspondence calls (%d disagree), %d violations, %.0fs' % (pid, tier, res['discharged'], res['obligations'], cstats.get('calls', 0), cstats.get('disagree', 0), nviol, time.time() - t0))
+    log('%s %s: %d/%d obligations, %d correspondence calls (%d disagree), %d violations, %.0fs' % (pid, tier, res['discharged'], res['obligations'] - nknown, cstats.get('calls', 0), cstats.get('disagree', 0), nviol, time.time() - t0))
     return 1 if nviol else 0
 
 def core_match(k, obj):
